@@ -1715,6 +1715,13 @@ class SpaceUpdater(SharedSpaceOperations):
         for n in nx.descendants(self._graph, node):
             self._graph.get_mro(n)
 
+        if refs:
+            # Check name conflict between refs and the cells to be derived
+            for b in self._graph.get_mro(node)[1:]:
+                conflict = set(refs) & set(self._graph.to_space(b).cells)
+                if conflict:
+                    raise NameError("name conflict: %s" % conflict)
+
         if container is None:
             container = parent._named_spaces
 
